@@ -152,9 +152,13 @@ def run(chk, tier, seed, replay=None):
                          'from the transcription (spec must be re-bound; not an alarm)' % drift)
     # end to end: header order of real runs, discovery order permuted
     prof = {'sweep': True, 'kinds': 'mixed', 'hooks': 'random', 'outcomes': ['pass'],
-            'tests_per_layer': (1, 1), 'unit_tests': (0, 1), 'permute_names': True,
-            'opts': lambda r: {'verbose': r.choice([0, 1])}}
+            'tests_per_layer': (1, 1), 'unit_tests': (0, 1), 'permute_names': True, 'dotted': 0.15,
+            'opts': lambda r: dict({'verbose': r.choice([0, 1])}, **({'j': 2} if r.random() < 0.2 else {}))}
     cases = corecheck.gen_cases(rng, graphs, 120 if tier == 'quick' else 1200, prof, 'h')
+    # layers in subprocesses, with names that differ only where one has a dot
+    prof_d = dict(prof, dotted=1.0, opts=lambda r: {'verbose': 1, 'j': r.choice([2, 3])},
+                  tests_per_layer=(1, 2), sweep=False, big=0.0)
+    cases += corecheck.gen_cases(rng, [g for g in graphs if 3 <= g['n'] <= 4], 14 if tier == 'quick' else 150, prof_d, 'hd')
     for c in cases:
         cl = list(c['world']['classes'].items())
         rng.shuffle(cl)              # discovery order
